@@ -270,6 +270,9 @@ def run(chk, replay):
             timeout_replay(chk, rp["case"]["timeout_case"]); return
         if "real_stop_case" in rp.get("case", {}):
             real_stop_stream(chk); return
+        if "resignal_case" in rp.get("case", {}):
+            import x_c05_resignal
+            x_c05_resignal.replay(chk, rp["case"]["resignal_case"]); return
         if "agent_stop_case" in rp.get("case", {}):
             import p_c08
             chk.rng.seed(1)
@@ -291,3 +294,5 @@ def run(chk, replay):
     sched.yaml_stream(chk, PROP, replay)
     agent_stop_stream(chk)
     real_stop_stream(chk)
+    import x_c05_resignal            # the REAL process signalled 1-3 times from outside (the only leg that goes through cmd/signal.go)
+    x_c05_resignal.run_leg(chk)
